@@ -452,7 +452,7 @@ class Exec:
             i0 = z3.Int(fresh_name('bi'))
             DEFS[c.get_id()] = (c, c == BytesS.mkb(n, z3.Lambda([i0], z3.If(z3.And(0 <= i0, i0 < n), z3.Select(a, i0), 0))), [])
             INPUT_BYTES[c.get_id()] = c
-            v = VBytes(n, lambda i, a=a, n=n: z3.If(z3.And(0 <= i, i < n), z3.Select(a, i), 0), term=c)
+            v = VBytes(n, lambda i, a=a: z3.Select(a, i), term=c)     # (out-of-range reads are 0 by the normal-form definition)
             return v
         if ty[0] == 'tuple':
             v = VTuple([self.fresh_val(st, t, base) for t in ty[1]])
